@@ -208,9 +208,10 @@ fn alias_no_deadlock() {
       gd.data.set_undefined("a".to_string(), Data::Integer(vnd_i64(1)));
       gd.data.set_undefined("arr".to_string(), Data::Array(vec![create_data_arc(Data::Integer(0)), create_data_arc(Data::Integer(1))]));
       gd.data.set_undefined("m".to_string(), Data::Map(std::collections::HashMap::new())); }
-    let k = vnd_conc(vnd_range(0, 9, 2), 9);
+    let k = vnd_conc(vnd_range(0, 15, 2), 15);
     let text = match k {
         0 => "a = a", 1 => "a ?= a", 2 => "a + a", 3 => "a == a", 4 => "arr[arr[0]]", 5 => "arr = arr", 6 => "a = a + a", 7 => "arr + arr", 8 => "m = m",
+        9 => "arr[arr]", 10 => "m[m]", 11 => "a * a - a", 12 => "arr[0] = arr[0]", 13 => "m.x ?= m", 14 => "[a, a][0] + a",
         _ => "a = a = a",
     };
     let r = ExpressionParser::execute(text.to_string(), &mut g.lock().unwrap());
